@@ -95,6 +95,7 @@ type Exec struct {
 	rootArgs   map[string]Val
 	writeCache map[*ssa.Function]*writeSet
 	recDefs    map[string]*recDef
+	smallCache map[*ssa.Function]bool
 	unfolded   map[string]bool
 	pendingFacts []string
 	inlined, opaque, usedContracts, modelsUsed map[string]bool
